@@ -440,6 +440,25 @@ def c03_pynn_sparse_small():
 
 
 # ---------------------------------------------------------------- C15 / C17 / C19 / C20
+def c15_symmetric_path():
+    """a path with equal weights: the start vector of the eigen-solver (all ones) is invariant under the reflection of the path, the
+    Krylov space never leaves the symmetric subspace, and the (antisymmetric) Fiedler vector is never found"""
+    import umap.spectral as S
+    n = 20
+    A = np.zeros((n, n))
+    for i in range(n - 1):
+        A[i, i + 1] = A[i + 1, i] = 1.0
+    with warnings.catch_warnings():
+        warnings.simplefilter("ignore")
+        E = np.asarray(S.spectral_layout(np.zeros((n, 2)), scipy.sparse.csr_matrix(A), 2, np.random.RandomState(0)))
+    sd = np.sqrt(A.sum(0))
+    L = np.eye(n) - A / sd[:, None] / sd[None, :]
+    vals = np.linalg.eigvalsh(L)
+    v = E[:, 0] / np.linalg.norm(E[:, 0])
+    lam = float(v @ L @ v)
+    return None if abs(lam - vals[1]) < 2e-3 else f"equal-weight path on 20 vertices: column 0 has eigenvalue {lam:.4f}, the smallest non-trivial one is {vals[1]:.4f}"
+
+
 def c15_trivial_missing():
     import umap.spectral as S
     r = _rng(14)
@@ -536,6 +555,7 @@ WITNESSES = {
     "C14:diagonal_gaussian_energy_grad-det-zero": c14_diag_det_zero,
     "C03:pynn-only-metric-sparse-small-data": c03_pynn_sparse_small,
     "C17:short-run-pruning-depends-on-densmap": c17_short_run,
+    "C15:symmetric-graph-start-vector": c15_symmetric_path,
     "C10:sparse-training-data-not-recognised": c10_csr_copy,
     "C10:list-n_epochs-transform-typeerror": c10_list_epochs,
     "C05:densmap-isolated-sample": c05_densmap_isolated,
